@@ -48,7 +48,7 @@ section nonvacuity
 /-- a history over the real table: `update`, create two state stores, `set` on the
 second (load + save), `get` on the first, an `append_event` that raises, `query` -/
 def demoSem : Sem Nat Nat := fun s a c =>
-  { ok := a != 99, wrote := (a % 2 == 1), content := c + s + 1, val := c * 10 + a }
+  { ok := a != 99, began := (a % 2 == 1), wrote := (a % 2 == 1) && a != 99, content := c + s + 1, val := c * 10 + a }
 def demoGlue (r : Res Nat) : Prog Nat :=
   match r with
   | .val _ v => .ret v
@@ -107,7 +107,7 @@ theorem C21_state_store_closing_shared_refutes (t : Table) (hctor : t.ctorOpensS
     (hs : t.secs[s]? = some sec) (hp : sec.acquire = .provider) (hc : sec.shared.closeOk = true) :
     ¬ ModesAgree t := by
   intro h
-  have h1 := (h Unit Bool (fun _ _ c => ⟨true, false, c, false⟩)
+  have h1 := (h Unit Bool (fun _ _ c => ⟨true, false, false, c, false⟩)
     [.newStore true (fun i => .call (some i) s false (fun _ => .call (some i) s false
         (fun r => .ret (r == .closedErr))))] ()).1
   simp [runAll, runProg, secStep, hs, onShared, init, perCall_beq_single, hctor, hss, hcr, hp, sharedAfter, freshAfter, hc] at h1
@@ -117,7 +117,7 @@ theorem C21_closing_section_refutes (t : Table) (hctor : t.ctorOpensShared = tru
     (s : Nat) (sec : Sec) (hs : t.secs[s]? = some sec) (hp : sec.acquire = .provider)
     (hc : sec.shared.closeOk = true) : ¬ ModesAgree t := by
   intro h
-  have h1 := (h Unit Bool (fun _ _ c => ⟨true, false, c, false⟩)
+  have h1 := (h Unit Bool (fun _ _ c => ⟨true, false, false, c, false⟩)
     [.call none s false (fun _ => .call none s false (fun r => .ret (r == .closedErr)))] ()).1
   simp [runAll, runProg, secStep, hs, onShared, init, perCall_beq_single, hctor, hws, hp, sharedAfter, freshAfter, hc] at h1
 
@@ -126,7 +126,7 @@ theorem C21_closing_on_error_refutes (t : Table) (hctor : t.ctorOpensShared = tr
     (s : Nat) (sec : Sec) (hs : t.secs[s]? = some sec) (hp : sec.acquire = .provider)
     (hc : sec.shared.closeErr = true) : ¬ ModesAgree t := by
   intro h
-  have h1 := (h Unit Bool (fun _ _ c => ⟨false, false, c, false⟩)
+  have h1 := (h Unit Bool (fun _ _ c => ⟨false, false, false, c, false⟩)
     [.call none s false (fun _ => .call none s false (fun r => .ret (r == .closedErr)))] ()).1
   simp [runAll, runProg, secStep, hs, onShared, init, perCall_beq_single, hctor, hws, hp, sharedAfter, freshAfter, hc] at h1
 
@@ -136,7 +136,7 @@ theorem C21_uncommitted_write_refutes (t : Table) (hctor : t.ctorOpensShared = t
     (s : Nat) (sec : Sec) (hs : t.secs[s]? = some sec) (hp : sec.acquire = .provider) (hw : sec.writes = true)
     (hc : sec.shared.commitOk = false) (hf : sec.fresh.commitOk = true) : ¬ ModesAgree t := by
   intro h
-  have h1 := (h Bool Bool (fun _ _ _ => ⟨true, true, true, false⟩)
+  have h1 := (h Bool Bool (fun _ _ _ => ⟨true, true, true, true, false⟩)
     [.call none s false (fun _ => .ret false)] false).2
   cases hcl : sec.shared.closeOk <;>
     simp [runAll, runProg, secStep, hs, onShared, init, perCall_beq_single, hctor, hws, hp, sharedAfter, freshAfter, hc, hf, hw, hcl] at h1
